@@ -96,6 +96,8 @@ type Op struct {
 	AckDelay  Dur     `json:",omitempty"`
 	ClientID  *string `json:",omitempty"` // override client id (e.g. empty id)
 	Transport string  `json:",omitempty"` // "" tcp | "ws"
+	WSMode    int     `json:",omitempty"` // websocket segmentation mode + 1 (0 = drawn from the network PRNG)
+	WSText    bool    `json:",omitempty"` // websocket: send text messages
 	StayOpen  bool    `json:",omitempty"` // do not close the connection after a failing CONNACK
 
 	// subscribe / unsubscribe
